@@ -408,46 +408,57 @@ def run(ctx):
     core.import_nitime()
     import nitime.timeseries as ts
     ctx.check_props()
-    axes = AXES_QUICK if ctx.quick else AXES_THOROUGH
-    depth = ctx.scale(3, 4)
-    schemes = alphabet(ctx.quick)
+    # (axes, alphabet, depth): quick = depth 3 everywhere; thorough = depth 4 on four axes (lengths 1, 3, 4, 6) with the
+    # basic alphabet and depth 3 with the extended alphabet on all eight axes (lengths 1..8)
+    if ctx.quick:
+        plans = [(AXES_QUICK, alphabet(True), 3)]
+    else:
+        plans = [(AXES_QUICK[:4], alphabet(True), 4), (AXES_THOROUGH, alphabet(False), 3)]
     cases = []
     stats = {"judged": 0, "fail": 0}
     counter = [0]
-    per_axis = []
-    for axis in axes:
+
+    def emit(axis, init, a0, t, kl, replay):
+        cases.append(Case(case_coq(axis, init, [t]), replay, kl, True))
+        walk(ctx, axis, a0, init, [t], [], stats)      # the tree is dropped afterwards: memory stays bounded
+
+    for axes, schemes, depth in plans:
+        for axis in axes:
+            cf = FACT[axis[0]]
+            init = observe(fresh(ts, axis))
+            a0 = (axis[1] * cf, axis[2] * cf, axis[3])
+            why = describes(a0, init)
+            if why is not None:
+                ctx.report_fail(Fail("C17/construct/%s" % why, "fresh axis not self-consistent", init, a0,
+                                     {"axis": list(axis), "ops": []}))
+            for sch in schemes:
+                t = build(ts, axis, [], [sch], 1, counter)[0]
+                if depth > 1:
+                    t["kids"] = build(ts, axis, [t["op"]], schemes, depth - 1, counter)
+                emit(axis, init, a0, t, "%s/%s/depth%d" % (axis[0], t["op"]["k"], depth), {"axis": list(axis), "first_op": t["op"]})
+    for axis in AXES_QUICK if ctx.quick else AXES_THOROUGH:
         cf = FACT[axis[0]]
         init = observe(fresh(ts, axis))
         a0 = (axis[1] * cf, axis[2] * cf, axis[3])
-        why = describes(a0, init)
-        if why is not None:
-            ctx.report_fail(Fail("C17/construct/%s" % why, "fresh axis not self-consistent", init, a0,
-                                 {"axis": list(axis), "ops": []}))
-        trees = build(ts, axis, [], schemes, depth, counter)
-        extra = [build_path(ts, axis, h, counter) for h in EXTRA]
-        per_axis.append((axis, init, a0, trees + extra))
-        for t in trees + extra:
-            kl = "%s/%s" % (axis[0], t["op"]["k"])
-            cases.append(Case(case_coq(axis, init, [t]), {"axis": list(axis), "first_op": t["op"]}, kl, True))
+        for h in EXTRA:
+            t = build_path(ts, axis, h, counter)
+            emit(axis, init, a0, t, "%s/extra" % axis[0], {"axis": list(axis), "history": h})
     for cax, cops in corpus_histories():        # minimised histories kept from development (fixed defects)
         cf = FACT[cax[0]]
         init = observe(fresh(ts, cax))
         t = build_path(ts, cax, cops, counter)
-        per_axis.append((cax, init, (cax[1] * cf, cax[2] * cf, cax[3]), [t]))
-        cases.append(Case(case_coq(cax, init, [t]), {"axis": list(cax), "ops": cops}, "corpus", True))
+        emit(cax, init, (cax[1] * cf, cax[2] * cf, cax[3]), t, "corpus", {"axis": list(cax), "ops": cops})
     nshard = max(1, (len(cases) + core.NCPU - 1) // core.NCPU)
-    bad = check_cases_retry(ctx, "K", HEADER, cases, "check", shard=nshard, case_type="case", timeout=1500)
-    for axis, init, a0, trees in per_axis:
-        walk(ctx, axis, a0, init, trees, [], stats)
+    bad = check_cases_retry(ctx, "K", HEADER, cases, "check", shard=nshard, case_type="case", timeout=2400)
     ctx.cases_total = counter[0]
     ctx.extra["histories_nodes"] = counter[0]
     ctx.extra["oracle_nodes_judged"] = stats["judged"]
     ctx.extra["oracle_nodes_failing"] = stats["fail"]
-    ctx.extra["depth"] = depth
+    ctx.extra["plans"] = [{"axes": [list(a) for a in axes], "operations": len(schemes), "depth": depth} for axes, schemes, depth in plans]
     ctx.extra["model_impl_disagreements"] = len(bad)
-    ctx.extra["rule"] = ("exhaustive: every sequence of length <= depth over the operation alphabet (12 quick / 14 thorough schemes; "
+    ctx.extra["rule"] = ("exhaustive: every sequence of length <= depth over the operation alphabet (12 basic / 14 extended schemes; "
                          "array operands rebuilt for the current length) from each axis of the generating set, plus hand-written "
-                         "histories (zero / negative factors, operands of wrong length, int32 / list / TimeArray operands); "
+                         "histories (zero / negative factors, operands of wrong length, int32 / list / TimeArray operands) and the corpus; "
                          "evaluations = nodes of the history trees; a K case = (axis, first operation) subtree")
     return ctx.finish(
         trusted=["numpy int64 in-place arithmetic, basic slicing and floor division as modelled in Model/UTimeOps.v (no wrap-around: small axes)"],
